@@ -307,7 +307,10 @@ impl Ctx {
                             match &out.verdict {
                                 Verdict::Fail(w, _) => {
                                     failed.store(true, Ordering::Relaxed);
-                                    // counted when the minimal case is recorded below
+                                    // the original failing case is recorded at once (a
+                                    // nondeterministic failure may not survive shrinking); the
+                                    // minimal one is recorded below
+                                    self.record(name, &case, &out);
                                     Err(TestCaseError::fail(w.clone()))
                                 }
                                 _ => {
@@ -325,11 +328,11 @@ impl Ctx {
                                     self.record(name, &case, &out);
                                 }
                                 _ => {
-                                    // flaky oracle: report explicitly, never silently
+                                    // the failure (already recorded with its original case)
+                                    // did not reproduce on the shrunk tape
                                     self.note(format!(
-                                        "check {name}: failure did not reproduce on the shrunk tape (flaky oracle?)"
+                                        "check {name}: a failure did not reproduce on its shrunk tape (nondeterministic subject or flaky oracle); the original case was recorded"
                                     ));
-                                    self.record(name, &case, &Outcome::fail("non-reproducible failure", json!({"tape": words})));
                                 }
                             }
                         } else if let Err(TestError::Abort(r)) = res {
